@@ -141,6 +141,23 @@ mod c11 {
         kani::cover!(shard >= n);
     }
 
+    /// counterexample search for the in-place contract of calculate_lowest_port_for_shard_in_range (proved unbounded by
+    /// the Verus unit; CBMC cannot prove it in reasonable time but finds violations of it quickly)
+    #[kani::proof_for_contract(Sharder::calculate_lowest_port_for_shard_in_range)]
+    fn c11_search_lowest_port() {
+        let s = any_sharder();
+        let shard: u16 = kani::any();
+        let r = any_range();
+        let _ = s.calculate_lowest_port_for_shard_in_range(shard, &r);
+    }
+
+    #[kani::proof_for_contract(Sharder::shard_of_source_port)]
+    fn c11_search_shard_of_source_port() {
+        let s = any_sharder();
+        let p: u16 = kani::any();
+        let _ = s.shard_of_source_port(p);
+    }
+
     /// canary: a deliberately false claim must be refuted (pipeline sanity).
     #[kani::proof]
     #[kani::should_panic]
